@@ -1,2 +1,141 @@
+"""C13 deep rule R1d: TheoryOracle interpreted on operator skeletons; the theory it reports must
+enable every feature the skeleton uses (computed structurally from sorts and operators).
+C14 R2 (shared with this run): analysing a term must not change the cached theory of its sub-terms."""
+from ..common import get_repo, parallel_map
+from .. import proc, refsem
+from .. import simpcheck as sc
+from ..absint import AObj
+
+FLAGS = ["arrays", "arrays_const", "bit_vectors", "floating_point", "integer_arithmetic", "real_arithmetic",
+         "integer_difference", "real_difference", "linear", "uninterpreted", "custom_type", "strings"]
+
+
+def sort_features(sort, out):
+    k = sort[0]
+    if k == "INT":
+        out.add("integer_arithmetic")
+    elif k == "REAL":
+        out.add("real_arithmetic")
+    elif k == "BV":
+        out.add("bit_vectors")
+    elif k == "STRING":
+        out.add("strings")
+    elif k == "CUSTOM":
+        out.add("custom_type")
+    elif k == "ARRAY":
+        out.add("arrays")
+        sort_features(sort[1], out)
+        sort_features(sort[2], out)
+    elif k == "FUN":
+        out.add("uninterpreted")
+        sort_features(sort[1], out)
+
+
+def required(w, n):
+    """(features that must be on, must_be_nonlinear)"""
+    out = set()
+    nonlinear = False
+    stack = [n]
+    seen = set()
+    while stack:
+        x = stack.pop()
+        if id(x) in seen:
+            continue
+        seen.add(id(x))
+        op = w.opname(x)
+        try:
+            sort_features(w.nsort(x), out)
+        except Exception:
+            pass
+        if op == "FUNCTION":
+            out.add("uninterpreted")
+        if op == "ARRAY_VALUE":
+            out.add("arrays")
+            out.add("arrays_const")
+            sort_features(w.sort_of_tyobj(w.npayload(x)), out)
+        if op in ("FORALL", "EXISTS"):
+            for v in w.npayload(x):
+                sort_features(w.nsort(v), out)
+        if op == "POW":
+            nonlinear = True
+        if op == "TIMES":
+            if sum(1 for a in w.nargs(x) if w.free_symbols(a)) > 1:
+                nonlinear = True
+        if op == "DIV":
+            l, r = w.nargs(x)
+            if w.free_symbols(l) and w.free_symbols(r):
+                nonlinear = True
+        stack.extend(w.nargs(x))
+    return out, nonlinear
+
+
+def flags_of(t):
+    return dict((f, t.attrs.get(f)) for f in FLAGS)
+
+
+def _job(shape):
+    def call(w, it, f):
+        o = w.new_walker("pysmt.oracles.TheoryOracle", w.env)
+        t = it.call(it.getattr(o, "get_theory"), [f])
+        return (o, t)
+
+    def post(w, f, r, facts):
+        o, t = r
+        it = w.it
+        if not isinstance(t, AObj) or not t.cls.endswith("logics.Theory"):
+            return proc.ProcResult(shape, "unsupported", "get_theory returned %r" % (t,))
+        fl = flags_of(t)
+        req, nonlin = required(w, f)
+        missing = sorted(x for x in req if fl.get(x) is not True)
+        res = []
+        if missing:
+            res.append("the detected theory lacks %s (uses: %s)" % (missing, sorted(req)))
+        if nonlin and fl.get("linear") is not False:
+            res.append("the term is non-linear but the detected theory is linear")
+        if res:
+            return proc.ProcResult(shape, "invalid", "; ".join(res), str(dict((k, v) for k, v in fl.items() if v)))
+        # C14 R2: every memoised sub-term still has the theory a fresh oracle computes for it
+        memo = o.attrs.get("memoization", {})
+        stale = []
+        for node, th in list(memo.items()):
+            if not w.is_node(node) or node is f:
+                continue
+            o2 = w.new_walker("pysmt.oracles.TheoryOracle", w.env)
+            t2 = it.call(it.getattr(o2, "get_theory"), [node])
+            if flags_of(t2) != flags_of(th):
+                diff = sorted(k for k in FLAGS if flags_of(t2)[k] != flags_of(th)[k])
+                stale.append("%s: cached theory now differs in %s" % (sc.node_str(w, node), diff))
+        if stale:
+            return proc.ProcResult(shape, "stale", "; ".join(stale[:3]))
+        return proc.ProcResult(shape, "valid", "features %s%s" % (sorted(req), " non-linear" if nonlin else ""),
+                               str(sorted(k for k, v in fl.items() if v)))
+    res = proc.run_proc(shape, call, post=post)
+    return [(repr(shape), r.kind, str(r.detail), r.result) for r in res]
+
+
+_OUT = {}
+
+
+def results():
+    if "r" not in _OUT:
+        shapes = proc.term_shapes() + proc.quantified_shapes()[:8] + proc.boolean_shapes(depth2=False)[:8]
+        _OUT["r"] = parallel_map(_job, shapes)
+    return _OUT["r"]
+
+
 def run(ctx):
-    pass
+    if not ctx.want("R1d"):
+        return
+    rs = ctx.rule("R1d", "TheoryOracle: the detected theory enables every feature the skeleton uses")
+    for res in results():
+        for shape, kind, detail, result in res:
+            if kind in ("valid", "stale"):
+                rs.ok({"shape": shape, "uses": detail if kind == "valid" else "(see C14 R2)", "detected": result})
+            elif kind == "invalid":
+                ctx.finding(rs, "TheoryOracle|%s" % shape, "get_theory(%s): %s [detected %s]" % (shape, detail, result),
+                            "pysmt/oracles.py")
+            elif kind == "raises":
+                ctx.finding(rs, "TheoryOracle|%s|raises" % shape, "get_theory(%s) raises %s" % (shape, detail), "pysmt/oracles.py")
+            elif kind != "vacuous":
+                rs.unrec("get_theory(%s): %s" % (shape, detail[:120]))
+    ctx.floor(rs, 45)
